@@ -308,14 +308,73 @@ pub struct MatchCtx {
     pub amounts_exact: bool,
 }
 
+/// 32 lower-case hex digits of a UUID written in any of the usual spellings, or None
+pub fn uuid_hex(s: &str) -> Option<String> {
+    let t = s.trim();
+    let t = t.strip_prefix("urn:uuid:").unwrap_or(t);
+    let t = t.strip_prefix('{').and_then(|x| x.strip_suffix('}')).unwrap_or(t);
+    let h: String = t.chars().filter(|c| *c != '-').collect::<String>().to_lowercase();
+    if h.len() == 32 && h.chars().all(|c| c.is_ascii_hexdigit()) {
+        Some(h)
+    } else {
+        None
+    }
+}
+
+/// the key under which `id` names an order: the spelling itself when an order is stored under it, else the
+/// key of the only order whose id is another spelling of the same UUID
+pub fn resolve_key<'a, I: Iterator<Item = &'a String>>(keys: I, id: &str) -> Option<String> {
+    let keys: Vec<&String> = keys.collect();
+    if keys.iter().any(|k| k.as_str() == id) {
+        return Some(id.to_string());
+    }
+    let want = uuid_hex(id)?;
+    let same: Vec<&&String> = keys.iter().filter(|k| uuid_hex(k).as_deref() == Some(want.as_str())).collect();
+    if same.len() == 1 {
+        Some((**same[0]).clone())
+    } else {
+        None
+    }
+}
+
+/// the request with its order id(s) replaced by the stored key(s) they resolve to, when that differs
+pub fn resolve_other_spelling(kind: &str, body: &Value, book: &Book) -> Option<Value> {
+    let fields: &[(&str, bool)] = match kind {
+        "cancel_ask" | "expire_ask" | "reject_ask" | "approve_ask" => &[("id", true)],
+        "cancel_bid" | "expire_bid" | "reject_bid" => &[("id", false)],
+        "execute_match" => &[("ask_id", true), ("bid_id", false)],
+        _ => return None,
+    };
+    let mut b = body.clone();
+    let mut changed = false;
+    for (f, is_ask) in fields {
+        let id = match body.get(*f).and_then(|x| x.as_str()) {
+            Some(i) => i,
+            None => continue,
+        };
+        let key = if *is_ask { resolve_key(book.asks.keys(), id) } else { resolve_key(book.bids.keys(), id) };
+        if let Some(k) = key {
+            if k != id {
+                b[*f] = Value::String(k);
+                changed = true;
+            }
+        }
+    }
+    if changed {
+        Some(b)
+    } else {
+        None
+    }
+}
+
 pub fn match_verdict(cfg: &Cfg, book: &Book, sender: &str, funds: &[(String, u128)], m: &Value) -> (Verdict, Option<MatchCtx>) {
     let (ask_id, bid_id, price, size) = match (gs(m, "ask_id"), gs(m, "bid_id"), gs(m, "price"), gu(m, "size")) {
         (Some(a), Some(b), Some(c), Some(d)) => (a, b, c, d),
         _ => return (Verdict::refuse("malformed message"), None),
     };
-    if !canon_uuid(ask_id) || !canon_uuid(bid_id) {
-        return (Verdict::refuse("id not canonical"), None);
-    }
+    // an id that is not in canonical form is a gray zone: the properties neither forbid nor demand that the
+    // order stored under it can be matched (the pinned tree refuses); every other condition is still judged
+    let gray_id = !canon_uuid(ask_id) || !canon_uuid(bid_id);
     if price.is_empty() || size < 1 {
         return (Verdict::refuse("empty price or zero size"), None);
     }
@@ -427,6 +486,10 @@ pub fn match_verdict(cfg: &Cfg, book: &Book, sender: &str, funds: &[(String, u12
         && below_limit(ep.mant_times(size))
         && below_limit(bp.mant_times(size))
         && cfg.ask_fee.as_ref().map_or(true, |f| parse_dec(&f.rate).map_or(false, |r| r.form == Form::Plain && below_limit(r.mant_times(gross))));
+    if gray_id {
+        dom = false;
+        why = "order id not in canonical form: acceptance neither demanded nor forbidden";
+    }
     (Verdict::accept(dom, why), Some(MatchCtx { ep, bp, ap, gross, orig_gross, improved, amounts_exact }))
 }
 
